@@ -181,7 +181,8 @@ def spawn (k : Kernel) : Kernel × Option Nat :=
   else
     let pid := k.nextPid
     let me : KProc := { pid := pid, ppid := some 0, st := .run, status := 0, doom := none, behav := b }
-    ({ k with procs := k.procs ++ [me] ++ mkKids pid b b.kids (pid + 1), nextPid := pid + 1 + b.kids }, some pid)
+    ({ k with procs := k.procs ++ [me] ++ mkKids pid b b.kids (pid + 1), nextPid := pid + 1 + b.kids,
+              now := k.now + b.spawnMs }, some pid)
 
 /-- time.sleep(ms) inside the daemon (blocking) -/
 def sleep (k : Kernel) (ms : Nat) : Kernel :=
